@@ -221,6 +221,21 @@ def run(ctx):
             rets = [bi for bi, _s in lib.blocks_assigning_ret_variant(b, "Ok")]
             covered = all(any(x == r or b.dominates(x, r) for _org, x in se) for r in rets)
             ok = bool(rets) and covered and any(lo in org for org, _x in se) and any(lu in org for org, _x in se)
+            if not rets:
+                # the combined result is returned as it is (`a.or(b).map_err(..)`): the return place carries both outcomes
+                d0 = b.defs.get(0, [])
+                orgs = set()
+                for d in d0:
+                    if d[2] == "call":
+                        tmp = d[3]["dest"]["l"]
+                        # origins of the value the call produces: look at its receiver chain
+                        nm = d[3]["f"].get("fn") or ""
+                        if re.search(r"result::Result::<.*>::(or|map_err)$", nm):
+                            for a in d[3]["args"]:
+                                q = op_place(a)
+                                if q is not None and not q["p"]:
+                                    orgs |= lib.result_origins(b, q["l"])
+                ok = bool(d0) and {lo, lu} <= orgs
         ctx.ob("R-ORDER", "both-passwords|%s" % fn, ok, "owner and user authentication are both tried and the combined result is propagated", b.where(),
                what="%s no longer accepts both the owner and the user password (or ignores the outcome)" % fn)
     # 5b. revisions 2-4: the file key is a function of the *user* password
